@@ -206,9 +206,49 @@ Proof. intros [S1 S2]. unfold gphys. split; intros [H1 H2]; split; intros x Hx.
   - specialize (H2 x Hx). rewrite gcrel_cons, S2 in H2. rewrite <- H2. ring.
   - rewrite gkcl_cons, S1, H1 by assumption. ring.
   - rewrite gcrel_cons, S2, H2 by assumption. ring. Qed.
+
+(* ---- the same with an observation carried along -------------------------- *)
+(* Obs v ib v' ib' relates the two assignments further (e.g. "every branch of
+   the chain carries the same current in both"); the replacement theorem hands
+   it through to the whole-circuit solutions *)
+Definition obs_t := (Z -> K) -> (Z -> K) -> (Z -> K) -> (Z -> K) -> Prop.
+Definition port_sim_o (Obs : obs_t) (IN IV IR : Z -> bool) (F1 F2 : list sem) : Prop :=
+  forall v ib, int_ok IN IR F1 v ib ->
+  exists v' ib', agree IN v v' /\ agree IV ib ib' /\ int_ok IN IR F2 v' ib' /\
+    (forall r, 0 <= r -> IN r = false -> gkcl F1 v ib r = gkcl F2 v' ib' r) /\
+    (forall q, 0 <= q -> IR q = false -> gcrel F1 v ib q = gcrel F2 v' ib' q) /\ Obs v ib v' ib'.
+Definition gsim_o (Obs : obs_t) (IN IV : Z -> bool) (N1 N2 : list sem) : Prop :=
+  forall v ib, gphys N1 v ib -> exists v' ib', agree IN v v' /\ agree IV ib ib' /\ gphys N2 v' ib' /\ Obs v ib v' ib'.
+Lemma port_sim_o_weaken Obs IN IV IR F1 F2 : port_sim_o Obs IN IV IR F1 F2 -> port_sim IN IV IR F1 F2.
+Proof. intros H v ib I. destruct (H v ib I) as [v' [ib' [A1 [A2 [A3 [A4 [A5 _]]]]]]]. exists v', ib'. repeat split; try assumption; apply A3. Qed.
+Theorem replace_preserves_phys_o Obs IN IV IR (A C F1 F2 : list sem) :
+  Forall (ext_of IN IV IR) A -> Forall (ext_of IN IV IR) C -> port_sim_o Obs IN IV IR F1 F2 ->
+  gsim_o Obs IN IV (A ++ F1 ++ C) (A ++ F2 ++ C).
+Proof.
+  intros EA EC S v ib [Hk Hc].
+  assert (I1 : int_ok IN IR F1 v ib).
+  { split; intros x Hx Hi.
+    - specialize (Hk x Hx). rewrite !gkcl_app in Hk.
+      rewrite (ext_kcl_silent IN IV IR A v ib x EA Hi), (ext_kcl_silent IN IV IR C v ib x EC Hi) in Hk.
+      rewrite <- Hk. ring.
+    - specialize (Hc x Hx). rewrite !gcrel_app in Hc.
+      rewrite (ext_crel_silent IN IV IR A v ib x EA Hi), (ext_crel_silent IN IV IR C v ib x EC Hi) in Hc.
+      rewrite <- Hc. ring. }
+  destruct (S v ib I1) as [v' [ib' [A1 [A2 [[Ik Ic] [E1 [E2 O]]]]]]].
+  exists v', ib'. split; [exact A1|]. split; [exact A2|]. split; [|exact O]. split; intros x Hx.
+  - rewrite !gkcl_app. destruct (IN x) eqn:Hi.
+    + rewrite (ext_kcl_silent IN IV IR A v' ib' x EA Hi), (ext_kcl_silent IN IV IR C v' ib' x EC Hi), (Ik x Hx Hi). ring.
+    + rewrite <- (ext_kcl_agree IN IV IR A v v' ib ib' x EA A1 A2), <- (ext_kcl_agree IN IV IR C v v' ib ib' x EC A1 A2),
+              <- (E1 x Hx Hi). specialize (Hk x Hx). rewrite !gkcl_app in Hk. exact Hk.
+  - rewrite !gcrel_app. destruct (IR x) eqn:Hi.
+    + rewrite (ext_crel_silent IN IV IR A v' ib' x EA Hi), (ext_crel_silent IN IV IR C v' ib' x EC Hi), (Ic x Hx Hi). ring.
+    + rewrite <- (ext_crel_agree IN IV IR A v v' ib ib' x EA A1 A2), <- (ext_crel_agree IN IV IR C v v' ib ib' x EC A1 A2),
+              <- (E2 x Hx Hi). specialize (Hc x Hx). rewrite !gcrel_app in Hc. exact Hc.
+Qed.
 End G.
 
 Arguments ssum {K}. Arguments gkcl {K}. Arguments gcrel {K}. Arguments gphys {K}.
 Arguments agree {K}. Arguments ext_of {K}. Arguments int_ok {K}. Arguments port_sim {K}.
 Arguments port_equiv {K}. Arguments gsim {K}. Arguments gequiv {K}. Arguments silent {K}.
+Arguments port_sim_o {K}. Arguments gsim_o {K}. Arguments obs_t K : clear implicits.
 Arguments sem K : clear implicits.
